@@ -103,7 +103,7 @@ PROPS = {
         "trusted_base": ["model files: lean/I2P/NetAddr.lean, lean/I2P/RouterAddrAcc.lean, lean/I2P/Mapping.lean, lean/I2P/Data.lean"],
     },
     "C19": {
-        "suites": PARSE_GROUPS + ",C13,C17,BUILDER,CTWIN",
+        "suites": PARSE_GROUPS + ",C13,C17,BUILDER,CTWIN,TWIN",
         "assumptions": COMMON_ASSUME,
         "trusted_base": [MODEL_FILES],
     },
